@@ -42,12 +42,14 @@ structure ProjDecoder where
   deriving DecidableEq, Repr
 
 /-- `opus_projection_decoder_init` (src/opus_projection_decoder.c:128-195).  `size` is the
-    `demixing_matrix_size` argument, `dm` the bytes at `demixing_matrix`.  A negative cell count that
-    passes the size comparison makes the C code allocate a negative-length array: `.abort`. -/
+    `demixing_matrix_size` argument, `dm` the bytes at `demixing_matrix`.  The arguments are not validated
+    before `ALLOC(buf, nb_input_streams*channels, opus_int16)`: a cell count `≤ 0` that passes the size
+    comparison makes the C code declare a zero- or negative-length array (undefined; UBSan vla-bound):
+    `.abort`. -/
 def decoderInit (innerOk : Bool) (channels streams coupled : Int) (dm : Bytes) (size : Int) : Res ProjDecoder :=
   let nin := streams + coupled
   if nin * channels * 2 ≠ size then .err .badArg
-  else if nin * channels < 0 then .abort
+  else if nin * channels ≤ 0 then .abort
   else match importCells dm (nin * channels).toNat with
     | .ok cells =>
       if !matrixSizeNonzero channels nin then .err .badArg
